@@ -117,7 +117,11 @@ def conn_term(res, stream_parts, late_spec, cmp_relay, reads=None, iters=None):
                late_spec, echo_t, gbool(bool(res.get("mark_first", found is not None))), replay_t))
 
 
-def gen_cases(ctx, table):
+PEERS = ("v4short", "v4mapped", "v6", "zoned")
+
+
+def gen_cases(ctx, table, consts=None):
+    consts = consts or {}
     rng = ctx.rng
     quick = ctx.tier == "quick"
     cases = []
@@ -132,7 +136,7 @@ def gen_cases(ctx, table):
         c = {"transport": tr, "prefix_id": pid, "flush": 0, "rand_port": False, "cuts": [], "natural": False,
              "data_len": 0, "data_seed": rng.randrange(1, 1 << 30), "late_len": 16, "late_seed": rng.randrange(1, 1 << 30),
              "delay_ms": 0, "banner_len": 0, "banner_seed": rng.randrange(1, 1 << 30), "key": next(ki) % 3, "sweep": False,
-             "others": OTHERS[next(oi) % len(OTHERS)], "kind": "?"}
+             "others": OTHERS[next(oi) % len(OTHERS)], "kind": "?", "pad_len": 0, "peer": ""}
         c.update(kw)
         cases.append(c)
 
@@ -238,6 +242,29 @@ def gen_cases(ctx, table):
         k = rng.randrange(1, 7)
         cs = sorted(set(rng.choice([rng.randrange(1, 8192), -rng.randrange(1, 140)]) for _ in range(k)))
         mk("obfs4", 0, cuts=cs, data_len=rng.choice([0, 10, 2000]), delay_ms=rng.choice([0, 0, 3]), kind="obfs4")
+    # obfs4: hand-built valid client handshakes X'|pad|mark|MAC for the padding lengths the real client
+    # practically never draws (both ends of the legal range and the values next to them), under several
+    # segmentations: every legal padding length (flight of at most MaxHandshakeLength bytes) must be recognised
+    lo, hi = consts.get("min_pad", 77), consts.get("max_pad", 8128)
+    pads = [("min", lo), ("min+1", lo + 1), ("mid", (lo + hi) // 2), ("max-32", hi - 32), ("max-31", hi - 31), ("max-1", hi - 1), ("max", hi),
+            ("rand", rng.randrange(lo, hi + 1)), ("rand-top", rng.randrange(hi - 64, hi + 1))]
+    psegs = [[], [1400 * k for k in range(1, 6)], [32, -32], [-1], [4096, -16], [1]]
+    for j, (lab, pl) in enumerate(pads):
+        for cs in (psegs[:2] + [psegs[2 + j % 4]] + [sorted(set(rng.randrange(1, pl + 64) for _ in range(rng.randrange(1, 5))))]):
+            mk("obfs4", 0, cuts=cs, data_len=0, late_len=0, pad_len=pl, pad_class=lab, kind="obfs4-pad")
+    # the client's source address as the accepted socket reports it (*net.TCPAddr): 4-byte IPv4, v4-mapped,
+    # global IPv6, link-local IPv6 with a zone - a registered client is recognised whatever IP address it comes from
+    for tr, pid in [("min", 0), ("obfs4", 0)] + [("prefix", r["id"]) for r in table]:
+        for peer in PEERS:
+            if tr == "obfs4":
+                mk(tr, pid, cuts=[64, -32], data_len=20, peer=peer, kind="peer-" + peer)
+            else:
+                mk(tr, pid, cuts=[flen[(tr, pid)] // 2], data_len=8, peer=peer, kind="peer-" + peer)
+    for _ in range(12 if quick else 100):
+        tr, pid = rng.choice(sets)
+        L = flen[(tr, pid)]
+        peer = rng.choice(PEERS)
+        mk(tr, pid, cuts=sorted(set(rng.randrange(1, L + 5) for _ in range(rng.randrange(0, 4)))), data_len=5, peer=peer, kind="peer-" + peer)
     only = os.environ.get("VERIF_C04_ONLY")      # debugging aid: restrict the run to one transport
     if only:
         cases = [c for c in cases if c["transport"] == only]
@@ -248,11 +275,18 @@ def oracle(ctx, c, r):
     """the property's own statement on the implementation's observables"""
     tr = c["transport"]
     base = tr + ("/p%d" % c["prefix_id"] if tr == "prefix" else "")
+    if c.get("pad_len"):
+        base += "/pad-" + c.get("pad_class", "n")
+    if c.get("peer"):
+        base += "@peer-" + c["peer"]
     want = bytes(lcg_bytes(c["data_seed"], c["data_len"])) + bytes(lcg_bytes(c["late_seed"], c["late_len"]))
     want_reply = bytes(lcg_bytes(c.get("banner_seed", 1), c.get("banner_len", 0))) + want
     brief = {k: c[k] for k in ("transport", "prefix_id", "flush", "rand_port", "cuts", "natural", "data_len", "data_seed",
                                "late_len", "late_seed", "delay_ms", "banner_len", "banner_seed", "key", "sweep", "others")}
-    brief["observed"] = {k: r.get(k) for k in ("err", "found", "found_t", "status", "updates", "segs", "reads", "echo_conns", "returned", "early_answered", "status_open", "updates_open", "swept", "mark_first")}
+    for k in ("pad_len", "pad_class", "peer"):
+        if c.get(k):
+            brief[k] = c[k]
+    brief["observed"] = {k: r.get(k) for k in ("err", "found", "found_t", "status", "updates", "segs", "reads", "echo_conns", "returned", "early_answered", "status_open", "updates_open", "swept", "mark_first", "flight_len", "hs_reply")}
     brief["observed"]["echo_len"] = (r.get("echo") or {}).get("len")
     brief["observed"]["reply_len"] = (r.get("reply") or {}).get("len")
     brief["sent_len"] = len(want)
@@ -262,9 +296,13 @@ def oracle(ctx, c, r):
         return v and v["len"] == len(w) and int(v["hash"]) == bhash(w)
     bad = False
     if not r.get("found") or r.get("found_t") != tr:
-        ctx.fail(base + ":not-recognised", "a registered %s client's first flight was not recognised by the handler (segments %s)"
-                 % (base, r.get("segs")), brief)
+        ctx.fail(base + ":not-recognised", "a registered %s client's first flight%s was not recognised by the handler (segments %s)"
+                 % (base, " (%s bytes, %d of padding)" % (r.get("flight_len"), c["pad_len"]) if c.get("pad_len") else "", r.get("segs")), brief)
         return True
+    if c.get("pad_len") and r.get("hs_reply", 0) < c.get("server_min", 1):
+        ctx.fail(base + ":no-server-handshake", "the station recognised the hand-built obfs4 handshake but answered with %s bytes "
+                 "(a server handshake has at least %s)" % (r.get("hs_reply"), c.get("server_min")), brief)
+        bad = True
     if r.get("found_id") != r.get("own_id"):
         ctx.fail(base + ":wrong-registration", "the handler found another registration than the client's", brief)
         bad = True
@@ -326,6 +364,11 @@ def table_obligation(ctx, table, consts, props="C04.Props", inst="C04_segmentati
            "Definition dumped_instance := fun reveal mark hs => %s.\n"
            "Print Assumptions dumped_table_wf.\n"
            % (table_term(table), consts["min_handshake"], consts["mark_start"], consts["max_handshake"], consts["mark_len"], consts["mac_len"], inst))
+    if "min_pad" in consts:
+        # the padding range C04_obfs4_every_padding_length quantifies over is the running code's
+        txt += ("From CJ Require Import C04.ProofsPad.\n"
+                "Lemma dumped_pad_range : (obfs4_min_pad, N.of_nat obfs4_max_pad) = (%d%%nat, %d%%N).\nProof. vm_compute. reflexivity. Qed.\n"
+                % (consts["min_pad"], consts["max_pad"]))
     rc, out = ctx.coq_eval("table_%s" % ctx.pid, txt)
     ctx.cov["obligations"] += 1
     ctx.cov["theorems"].append("dumped_table_wf (prefix_table_wf on the table of the running code)")
@@ -451,7 +494,10 @@ def run(ctx):
     table, consts = res["table"], res["obfs4"]
     table_obligation(ctx, table, consts)
     lap("table obligation")
-    cases = gen_cases(ctx, table)
+    cases = gen_cases(ctx, table, consts)
+    for c in cases:
+        if c.get("pad_len"):
+            c["server_min"] = consts.get("server_min", 1)
     rc, out, res = run_go(ctx, cases)
     lap("go run of %d cases" % len(cases))
     if not res or len(res.get("results", [])) != len(cases):
@@ -498,7 +544,7 @@ def run(ctx):
         r = results[i]
         ctx.sample({"case": {k: cases[i][k] for k in ("transport", "prefix_id", "cuts", "data_len", "natural", "kind")},
                     "observed": {k: r.get(k) for k in ("found_t", "segs", "reads", "status", "updates")}})
-    kinds = ["phantom:v4", "phantom:v6", "prefix/key0/ok", "prefix/key1/ok", "prefix/key2/ok", "min/sweep/ok", "prefix/sweep/ok", "obfs4/sweep/ok", "min/natural/ok", "min/1cut/ok", "min/1cut-banner/ok", "prefix/1cut-banner/ok", "min/2cut/ok", "prefix/natural/ok", "prefix/1cut/ok", "prefix/2cut/ok",
+    kinds = ["obfs4/obfs4-pad/ok"] + ["%s/peer-%s/ok" % (t, p) for t in ("min", "prefix", "obfs4") for p in PEERS] + ["phantom:v4", "phantom:v6", "prefix/key0/ok", "prefix/key1/ok", "prefix/key2/ok", "min/sweep/ok", "prefix/sweep/ok", "obfs4/sweep/ok", "min/natural/ok", "min/1cut/ok", "min/1cut-banner/ok", "prefix/1cut-banner/ok", "min/2cut/ok", "prefix/natural/ok", "prefix/1cut/ok", "prefix/2cut/ok",
              "prefix/early/ok", "prefix/paced/ok", "obfs4/obfs4/ok", "min/fill/ok", "prefix/fill/ok", "min/bytewise/ok", "prefix/bytewise/ok", "min/paced/ok"]
     if not ctx.known and not os.environ.get("VERIF_C04_ONLY") and not ctx.replay:
         ctx.require_kinds(kinds)
